@@ -33,8 +33,19 @@ type Program struct {
 	LoadTime time.Duration
 }
 
+// repoRoot is the directory of the tree under test ("/repo/" by default), used
+// to tell its source files from harness and library files.
+var repoRoot = "/repo/"
+
+func inRepo(file string) bool {
+	return strings.HasPrefix(file, repoRoot) && !strings.Contains(file, "zz_verif") && !strings.Contains(file, "/internal/verifh")
+}
+
 func Load(cfg LoadConfig) (*Program, error) {
 	t0 := time.Now()
+	if cfg.Dir != "" {
+		repoRoot = strings.TrimSuffix(cfg.Dir, "/") + "/"
+	}
 	pc := &packages.Config{
 		Mode:    packages.LoadAllSyntax,
 		Dir:     cfg.Dir,
